@@ -256,6 +256,25 @@ func isNilIdent(c *Ctx, e ast.Expr) bool {
 
 func exprString(e ast.Expr) string { return types.ExprString(e) }
 
+// rangeSourceOf: v is the value variable of a range statement; returns the ranged expression.
+func (c *Ctx) rangeSourceOf(fd *ast.FuncDecl, v types.Object) ast.Expr {
+	var out ast.Expr
+	if v == nil {
+		return nil
+	}
+	ast.Inspect(fd.Body, func(n ast.Node) bool {
+		rs, ok := n.(*ast.RangeStmt)
+		if !ok || rs.Value == nil {
+			return true
+		}
+		if vid, ok := rs.Value.(*ast.Ident); ok && c.objOf(vid) == v {
+			out = rs.X
+		}
+		return true
+	})
+	return out
+}
+
 // rangeElemsOf: v is the value variable of a range statement over a composite literal (given in place or through a
 // local variable defined once by such a literal); returns the element expressions of that literal.
 func (c *Ctx) rangeElemsOf(fd *ast.FuncDecl, v types.Object) []ast.Expr {
